@@ -17,6 +17,9 @@ CHECKS = {
  "C02": ("Exhaustive enumeration of all CNF shapes (quick: <=2x3 and 3x2; thorough: all 60 879 shapes up to 3 lines x 3 alternatives) with leaves forced to PASS/FAIL/SKIP at eight aggregation sites plus the file level and the named-rule clause, compared with the closed-form combinator of the property; and a node-by-node audit of the verbose evaluation record of every composite program of the BFS universe (plus type blocks, parameterised rules, function lets, nested when/blocks) alongside its AST.",
          "Trusted base: the 30-line closed-form fold, the record parser, the harness AST used to align record children with lines; a leaf clause's own per-value aggregation is left to C01.",
          "exhaustive enumeration of CNF shapes x aggregation sites against a closed-form combinator, plus record audit of every explored program"),
+ "C04": ("Differential exhaustive exploration, implementation against itself: for every base program of the BFS universe (plus a pool with lets at every scope, forward/backward and repeated named references, same-named definitions) every permutation (collections of <= 4 items) of lines, alternatives and rules, every repetition of a line/alternative and every duplication of a rule under a fresh name is applied (depth 1 everywhere, depth 2 on the smallest programs) and per-rule and file statuses are compared on every document.",
+         "Collections of more than 4 items are not permuted (the property says 'sampled beyond'; no sampling is done here). Orderings that raise an evaluation error are counted, not compared, as the property allows. Key-capture syntax is not generated.",
+         "exhaustive enumeration of permutation/duplication edges over a BFS program universe, differential oracle on the implementation"),
 }
 PENDING_REASON = "check under construction in this round (design in DESIGN.md section 5); not claimed until its quick tier runs clean on the unchanged tree"
 ALL = ["C%02d" % i for i in range(1, 20)]
